@@ -129,9 +129,21 @@ func (st *wstate) checkClean(i int, l *scen.Lifetime, lf *model.Life, rep *scen.
 		if derr != nil {
 			return false
 		}
+		// (a file whose own rewrite was hit by the fault - a failing write, truncate or seek,
+		// or the process dying there - may have lost anything: the properties do not promise
+		// an atomic rewrite)
+		rewriteHit := map[string]bool{}
+		for _, op := range rep.Ops {
+			if op.Seq > rep.CleanBegin && op.Fault {
+				switch op.Kind {
+				case "write", "writeat", "writefile", "truncate", "seek", "close", "sync", "rename":
+					rewriteHit[op.Path] = true
+				}
+			}
+		}
 		for _, path := range model.SortedKeys(touched) {
 			f := st.d.Multi[path]
-			if f == nil || f.Dirty || !Parseable(f) {
+			if f == nil || f.Dirty || !Parseable(f) || rewriteHit[path] {
 				continue
 			}
 			b, present := after[path]
